@@ -76,6 +76,9 @@ struct Case {
     /// instead of firing the shutdown signal, the listener's incoming stream ends (the serve
     /// future was started with a signal that never fires): serving must still drain
     end_incoming: bool,
+    /// the clients keep their (idle) channels alive after their calls finished: graceful shutdown
+    /// must close the connections by itself and the serve future must still resolve
+    keep_clients: bool,
     max_age_ms: Option<u64>,
 }
 
@@ -310,7 +313,7 @@ fn body(c: &Case, ch: &Chooser) -> Outcome {
         }
         // everything scripted has happened: let the system finish
         drop(sig_keep);
-        drop(channels);
+        let kept = if c.keep_clients { Some(channels) } else { drop(channels); None };
         vnet::settle_ms(50).await;
         let mut ends: Vec<CallEnd> = vec![];
         for k in 0..n {
@@ -335,6 +338,7 @@ fn body(c: &Case, ch: &Chooser) -> Outcome {
         vnet::settle_ms(50).await;
         let final_done = serve_done.load(Ordering::SeqCst);
         serve_states.push(("final".into(), final_done));
+        drop(kept);
         let late = match late_handle {
             None => None,
             Some(h) => Some(match vnet::within(Duration::from_secs(3600), h).await {
@@ -402,7 +406,7 @@ fn body(c: &Case, ch: &Chooser) -> Outcome {
         }
     }
     if serve_states.last().map(|(_, d)| *d) != Some(true) {
-        o.violate("serve-never-resolved", "all calls finished and all client channels were dropped after the signal, but the serve future did not resolve");
+        o.violate("serve-never-resolved", "all calls finished (and the client channels were dropped, or are merely idle) after the signal, but the serve future did not resolve");
     }
     if let Some(n) = open_at_resolution {
         if n > 0 {
@@ -446,37 +450,42 @@ fn cases(tier: Tier) -> Vec<Case> {
     // idle-connection variant)
     for conns in [0usize, 1] {
         for seed in 0..8 {
-            out.push(Case { calls: vec![], conns, chop: 0, seed, offer_after: true, same_step: true, signal_on_accept: false, end_incoming: false, max_age_ms: None });
+            out.push(Case { calls: vec![], conns, chop: 0, seed, offer_after: true, same_step: true, signal_on_accept: false, end_incoming: false, keep_clients: false, max_age_ms: None });
         }
-        out.push(Case { calls: vec![], conns, chop: 0, seed: 0, offer_after: true, same_step: false, signal_on_accept: false, end_incoming: false, max_age_ms: None });
+        out.push(Case { calls: vec![], conns, chop: 0, seed: 0, offer_after: true, same_step: false, signal_on_accept: false, end_incoming: false, keep_clients: false, max_age_ms: None });
         for chop in [0usize, 2] {
-            out.push(Case { calls: vec![], conns, chop, seed: 0, offer_after: true, same_step: true, signal_on_accept: true, end_incoming: false, max_age_ms: None });
+            out.push(Case { calls: vec![], conns, chop, seed: 0, offer_after: true, same_step: true, signal_on_accept: true, end_incoming: false, keep_clients: false, max_age_ms: None });
         }
     }
     for s in [Shape::Unary, Shape::ServerStream] {
-        out.push(Case { calls: vec![(s, 0)], conns: 1, chop: 0, seed: 0, offer_after: true, same_step: true, signal_on_accept: true, end_incoming: false, max_age_ms: None });
+        out.push(Case { calls: vec![(s, 0)], conns: 1, chop: 0, seed: 0, offer_after: true, same_step: true, signal_on_accept: true, end_incoming: false, keep_clients: false, max_age_ms: None });
         // the listener ends while calls are in flight
-        out.push(Case { calls: vec![(s, 0)], conns: 1, chop: 0, seed: 0, offer_after: false, same_step: false, signal_on_accept: false, end_incoming: true, max_age_ms: None });
-        out.push(Case { calls: vec![(s, 0), (Shape::Unary, 1)], conns: 2, chop: 2, seed: 0, offer_after: false, same_step: false, signal_on_accept: false, end_incoming: true, max_age_ms: None });
+        out.push(Case { calls: vec![(s, 0)], conns: 1, chop: 0, seed: 0, offer_after: false, same_step: false, signal_on_accept: false, end_incoming: true, keep_clients: false, max_age_ms: None });
+        out.push(Case { calls: vec![(s, 0), (Shape::Unary, 1)], conns: 2, chop: 2, seed: 0, offer_after: false, same_step: false, signal_on_accept: false, end_incoming: true, keep_clients: false, max_age_ms: None });
         // max_connection_age elapsing before / after the signal
         for age in [2u64, 5] {
-            out.push(Case { calls: vec![(s, 0)], conns: 1, chop: 0, seed: 1, offer_after: false, same_step: false, signal_on_accept: false, end_incoming: false, max_age_ms: Some(age) });
+            out.push(Case { calls: vec![(s, 0)], conns: 1, chop: 0, seed: 1, offer_after: false, same_step: false, signal_on_accept: false, end_incoming: false, keep_clients: false, max_age_ms: Some(age) });
         }
     }
-    out.push(Case { calls: vec![(Shape::Unary, 0), (Shape::ServerStream, 0)], conns: 1, chop: 0, seed: 1, offer_after: false, same_step: false, signal_on_accept: false, end_incoming: false, max_age_ms: Some(2) });
+    // clients that keep their idle channels: the server must close the connections itself
+    for calls in [vec![(Shape::Unary, 0)], vec![(Shape::ServerStream, 0), (Shape::Unary, 1)], vec![]] {
+        let conns = calls.iter().map(|(_, c)| c + 1).max().unwrap_or(1);
+        out.push(Case { calls, conns, chop: 0, seed: 0, offer_after: false, same_step: false, signal_on_accept: false, end_incoming: false, keep_clients: true, max_age_ms: None });
+    }
+    out.push(Case { calls: vec![(Shape::Unary, 0), (Shape::ServerStream, 0)], conns: 1, chop: 0, seed: 1, offer_after: false, same_step: false, signal_on_accept: false, end_incoming: false, keep_clients: false, max_age_ms: Some(2) });
     for (i, (calls, conns)) in call_sets.iter().enumerate() {
         let chops: Vec<usize> = if tier == Tier::Thorough { vec![0, 2, 3] } else { vec![[0, 2, 3][i % 3]] };
         for chop in chops {
-            out.push(Case { calls: calls.clone(), conns: *conns, chop, seed: 0, offer_after: true, same_step: false, signal_on_accept: false, end_incoming: false, max_age_ms: None });
+            out.push(Case { calls: calls.clone(), conns: *conns, chop, seed: 0, offer_after: true, same_step: false, signal_on_accept: false, end_incoming: false, keep_clients: false, max_age_ms: None });
             if calls.len() == 1 || tier == Tier::Thorough {
                 for seed in 0..4 {
-                    out.push(Case { calls: calls.clone(), conns: *conns, chop, seed, offer_after: true, same_step: true, signal_on_accept: false, end_incoming: false, max_age_ms: None });
+                    out.push(Case { calls: calls.clone(), conns: *conns, chop, seed, offer_after: true, same_step: true, signal_on_accept: false, end_incoming: false, keep_clients: false, max_age_ms: None });
                 }
             }
         }
         if tier == Tier::Thorough && calls.len() <= 2 {
             for age in [2u64, 6] {
-                out.push(Case { calls: calls.clone(), conns: *conns, chop: 0, seed: 1, offer_after: false, same_step: false, signal_on_accept: false, end_incoming: false, max_age_ms: Some(age) });
+                out.push(Case { calls: calls.clone(), conns: *conns, chop: 0, seed: 1, offer_after: false, same_step: false, signal_on_accept: false, end_incoming: false, keep_clients: false, max_age_ms: Some(age) });
             }
         }
     }
@@ -489,7 +498,7 @@ pub fn property(tier: Tier) -> Property {
         Config { hang_secs: 60, ..Default::default() },
         "cases: 1..2 (thorough 3) concurrent calls (unary: 1 gated handler step; server-streaming: message, message, end = 3 gated steps) on 1..2 connections x pipe fragmentation pattern x {new connection offered after the signal has settled | in the same step as the signal under 4 RNG seeds} ; the listener's incoming stream ending instead of the signal firing; max_connection_age elapsing before/after the signal; environment: the explorer enumerates EVERY interleaving of {start call k, release next handler step of call k, fire the shutdown signal, offer a new connection} consistent with causality (choices cost nothing), each event followed by quiescence in virtual time, on the real Server::serve_with_incoming_shutdown over in-memory pipes; RefShutdown: every call whose handler was invoked ends with its full outcome; no call hangs; the serve future is unresolved while an accepted call has steps outstanding (and before any signal), resolves after the last one finishes and the clients are gone, never with Err; a connection offered after signal+quiescence never reaches a handler and does not hang once serving ended. Non-trivial = the signal landed strictly between a call's start and its last handler step.",
         cases(tier),
-        |c: &Case| format!("calls={:?} conns={} chop={} seed={} offer_after={} same_step={} signal_on_accept={} end_incoming={} max_age={:?}", c.calls, c.conns, c.chop, c.seed, c.offer_after, c.same_step, c.signal_on_accept, c.end_incoming, c.max_age_ms),
+        |c: &Case| format!("calls={:?} conns={} chop={} seed={} offer_after={} same_step={} signal_on_accept={} end_incoming={} keep_clients={} max_age={:?}", c.calls, c.conns, c.chop, c.seed, c.offer_after, c.same_step, c.signal_on_accept, c.end_incoming, c.keep_clients, c.max_age_ms),
         body,
     )
     .mins(100, 10, 20);
